@@ -542,6 +542,14 @@ def run_program(name, enable_p2, max_rows=None):
                                                 "real/%s: with MAX_ROWS=%d the analysis dies with %r" % (name, max_rows, e), case))
                 result["stats"]["keys"] = 0
                 return result
+            tb = traceback.extract_tb(res.exc.__traceback__)
+            if any(f.filename.endswith(("lian/util/loader.py", "lian/util/data_model.py")) for f in tb):
+                # the fixed projects are analysed without error on the reference tree: the pipeline died inside the loader
+                fn = next((f.name for f in reversed(tb) if "/lian/" in f.filename), "?")
+                result["discrepancies"].append((("C15", "pipeline", "default-rows", "exception:%s@%s" % (type(res.exc).__name__, fn)),
+                                                "real/%s: the analysis dies inside the loader with %r" % (name, res.exc), case))
+                result["stats"]["keys"] = 0
+                return result
             result["error"] = "analysis of %s failed: %r\n%s" % (name, res.exc, res.stderr[-600:])
             return result
         if rec.errors:
